@@ -201,7 +201,7 @@ def c05(tier, replay):
     # about 240 000 steps in the quick tier, 7 million in the thorough one (exponential patterns on 5 characters)
     fuel = "400000" if tier == "quick" else "20000000"
     return sem_check("C05", tier, replay, ["--no-ascii", "--fuel", fuel], kinds_sem=("cost", "vm", "traceinv"),
-                     want=("cost", "vm", "trace", "space"), families=["F2", "F9"] if tier == "quick" else ["F2", "F3", "F4", "F1", "F1b", "F9"],
+                     want=("cost", "vm", "trace", "space"), families=["F2", "F2x", "F9"] if tier == "quick" else ["F2", "F2x", "F3", "F4", "F1", "F1b", "F9"],
                      trace_every=37 if tier == "quick" else 11, max_traces=2500 if tier == "quick" else 30000,
                      # (a cost run that spent its fuel is judged by JudgeCost, which knows the bound)
                      use_fails=lambda f: not (str(f.get("var", "")).startswith("cost_") and "fuel exhausted" in f["what"]),
